@@ -203,6 +203,28 @@ func init() {
 		return tStrToLower(strArg(a[0]))
 	})
 	reg("strings.ReplaceAll", func(ex *Exec, fr *Frame, site ssa.Instruction, a []Value) Value {
+		if r, ok := a[0].(*Rope); ok {
+			old, ok1 := strArg(a[1]).StrVal()
+			ctl := false
+			for i := 0; i < len(old); i++ {
+				if old[i] < 0x20 {
+					ctl = true
+				}
+			}
+			if !ok1 || !ctl {
+				panic(unsupported("ReplaceAll inside JSON text"))
+			}
+			// JSON text has no control bytes: only the plain string parts can contain the needle
+			var parts []interface{}
+			for _, p := range ropeParts(r) {
+				if t, ok := p.(*Term); ok {
+					parts = append(parts, tStrReplaceAll(t, strArg(a[1]), strArg(a[2])))
+				} else {
+					parts = append(parts, p)
+				}
+			}
+			return mkRope(parts)
+		}
 		return tStrReplaceAll(strArg(a[0]), strArg(a[1]), strArg(a[2]))
 	})
 	reg("strings.Split", func(ex *Exec, fr *Frame, site ssa.Instruction, a []Value) Value {
@@ -223,6 +245,37 @@ func init() {
 			r = ropeConcat(r, v)
 		}
 		return r
+	})
+	reg("strings.Count", func(ex *Exec, fr *Frame, site ssa.Instruction, a []Value) Value {
+		sub, ok := strArg(a[1]).StrVal()
+		if !ok || sub == "" {
+			panic(unsupported("strings.Count with symbolic/empty needle"))
+		}
+		n := 0
+		for _, p := range ropeParts(a[0]) {
+			switch x := p.(type) {
+			case *Term:
+				if c, ok := x.StrVal(); ok {
+					n += strings.Count(c, sub)
+					continue
+				}
+				if digitOnlyTerm(x) && !strings.ContainsAny(sub, "0123456789-") {
+					continue
+				}
+				panic(unsupported("strings.Count over a symbolic string"))
+			case *JNode:
+				ctl := false
+				for i := 0; i < len(sub); i++ {
+					if sub[i] < 0x20 {
+						ctl = true
+					}
+				}
+				if !ctl {
+					panic(unsupported("strings.Count inside JSON text"))
+				}
+			}
+		}
+		return bvInt(int64(n))
 	})
 	reg("strings.Index", func(ex *Exec, fr *Frame, site ssa.Instruction, a []Value) Value {
 		return tStrIndexOf(strArg(a[0]), strArg(a[1]), mkInt(0))
